@@ -259,6 +259,18 @@ def main():
 
         strategy_hierarchical.Producer.__init__ = pr_init_w
 
+    # ------------------------------------ enabled mutators when minimisation starts
+    # (what the command line and theory detection decided; a strategy must not change it)
+    orig_detect = mutators.auto_detect_theories
+
+    def detect(exprs):
+        res = orig_detect(exprs)
+        state['enabled_at_start'] = {k: v for k, v in vars(options.args()).items()
+                                     if k.startswith('mutator_') or k.startswith('mutators_')}
+        return res
+
+    mutators.auto_detect_theories = detect
+
     # ---------------------------------------------------------------- R
     orig_reduce = strategy_hierarchical.reduce
 
@@ -339,13 +351,15 @@ def main():
         try:
             from vlib import fixpoint
             after['fixpoint'] = fixpoint.enumerate_proposals(
-                state['result'], fp, d, orig_apply if trace else mutator_utils.apply_simp)
+                state['result'], fp, d, orig_apply if trace else mutator_utils.apply_simp,
+                enabled=state.get('enabled_at_start'))
         except BaseException:  # noqa
             after['fixpoint_error'] = traceback.format_exc()
     if os.getpid() == main_pid:
         a = options.args()
-        after['enabled'] = {k: v for k, v in vars(a).items()
-                            if k.startswith('mutator_') or k.startswith('mutators_')}
+        after['enabled_at_end'] = {k: v for k, v in vars(a).items()
+                                   if k.startswith('mutator_') or k.startswith('mutators_')}
+        after['enabled'] = state.get('enabled_at_start') or after['enabled_at_end']
         with open(os.path.join(d, 'after.json'), 'w') as f:
             json.dump(after, f)
     sys.stdout.flush()
